@@ -63,7 +63,28 @@ def combos(tier):
     return out
 
 
-def run_one(spec, cfg, sc, faults=(), region=None, lin_factor=(), lin_solve=(), region_kinds=None):
+class FailingFactory:
+    """A user-supplied step-solver factory (Params.step_solver) that builds the configured built-in solver and reports
+    failure (StepSolverError) on its k-th calls."""
+
+    def __init__(self, fail, fl):
+        self.fail, self.fl, self.n = set(fail), fl, 0
+
+    def __call__(self, problem, params, iterate, dt, rho):
+        from pygradflow.step.solver import (AsymmetricStepSolver, ExtendedStepSolver, StandardStepSolver,
+                                            SymmetricStepSolver)
+        from pygradflow.step.step_solver_error import StepSolverError
+
+        self.n += 1
+        if self.n in self.fail:
+            self.fl.fired.append(("factory", self.n))
+            raise StepSolverError("user step solver factory failed")
+        cls = {"Standard": StandardStepSolver, "Extended": ExtendedStepSolver, "Symmetric": SymmetricStepSolver,
+               "Asymmetric": AsymmetricStepSolver}[params.step_solver_type.name]
+        return cls(problem, params, iterate, dt, rho)
+
+
+def run_one(spec, cfg, sc, faults=(), region=None, lin_factor=(), lin_solve=(), region_kinds=None, factory=None):
     from pgfmc.drive.problems import FaultProblem
 
     holder = {}
@@ -78,11 +99,14 @@ def run_one(spec, cfg, sc, faults=(), region=None, lin_factor=(), lin_solve=(), 
         solver.fp = holder["fp"]
         solver.fl = fl
         holder["construct_counts"] = dict(holder["fp"].counts)
+        if factory is not None:
+            holder["factory"] = solver.params.step_solver = FailingFactory(factory, fl)
 
     ctx = G.execute({"spec": spec, "cfg": cfg, "sc": sc}, problem_wrap=wrap, solver_cls=FaultSolver, linear_faults=fl, pre=pre)
     ctx.fp = holder.get("fp")
     ctx.fl = fl
     ctx.construct_counts = holder.get("construct_counts", {})
+    ctx.factory = holder.get("factory")
     return ctx
 
 
@@ -121,6 +145,10 @@ def cases(tier, seed):
                 out.append({"spec": spec, "cfg": cfg_r, "sc": sc, "ls": [k], "base_digest": base_r.rec.digest})
         if nf > cap or ns > cap:
             CAPPED = True
+        # a user-supplied step-solver factory that reports failure on its k-th call (StepSolverError while a trial is set up)
+        base_f = run_one(spec, cfg, sc, factory=())
+        for k in range(1, min(base_f.factory.n, cap) + 1):
+            out.append({"spec": spec, "cfg": cfg, "sc": sc, "sf": [k], "plain_digest": base.rec.digest, "factory_digest": base_f.rec.digest})
         for ri, reg in enumerate(REGIONS):
             out.append({"spec": spec, "cfg": cfg, "sc": sc, "region": reg})
         # a function that is not defined AT the starting point (persistent, one kind at a time): dedicated initial-point error
@@ -181,11 +209,13 @@ def run_case(case):
     region = case.get("region")
     if region is not None and in_region(region, spec["x0"]):
         return {"outcome": "region-contains-start", "key": None, "violations": [], "stats": {}}
-    ctx = run_one(spec, cfg, sc, faults=faults, region=region, lin_factor=case.get("lf", ()), lin_solve=case.get("ls", ()))
+    ctx = run_one(spec, cfg, sc, faults=faults, region=region, lin_factor=case.get("lf", ()), lin_solve=case.get("ls", ()), factory=case.get("sf"))
     rec = ctx.rec
     viol = []
+    if case.get("sf") and case["plain_digest"] != case["factory_digest"]:
+        viol.append(M.V("C07|factory|delegate_differs", "a user step-solver factory that builds the configured built-in solver changes the run"))
     fired = list(ctx.fp.fired) + list(ctx.fl.fired)
-    tag = "region" if region else ("linear" if (case.get("lf") or case.get("ls")) and not faults else "eval")
+    tag = "region" if region else ("factory" if case.get("sf") else ("linear" if (case.get("lf") or case.get("ls")) and not faults else "eval"))
     oc = R.outcome_of(rec)
     solver = rec.solver
     start_counts = getattr(solver, "start_counts", None)
@@ -214,7 +244,7 @@ def run_case(case):
     if rec.result is None:
         e = rec.exc
         if not (e["deliberate"] and e["msg"].startswith("Inverse step size")):
-            viol.append(M.V(f"C07|{tag}|escaped|{e['cls']}|{e['site']}", f"fault {case.get('f') or case.get('lf') or case.get('ls') or region} escaped solve(): {e['cls']}: {e['msg']} ({e['site']})"))
+            viol.append(M.V(f"C07|{tag}|escaped|{e['cls']}|{e['site']}", f"fault {case.get('f') or case.get('lf') or case.get('ls') or case.get('sf') or region} escaped solve(): {e['cls']}: {e['msg']} ({e['site']})"))
     else:
         r = rec.result
         for nm in ("x", "y", "d"):
@@ -244,7 +274,7 @@ def run_case(case):
     for v in viol:
         if v["sig"] not in seen:
             seen.add(v["sig"]); vs.append(v)
-    return {"outcome": tag + ":" + oc, "key": f"{spec['tag']}|{G.cfg_key(cfg)}|{sc is not None}|{case.get('f')}|{case.get('lf')}|{case.get('ls')}|{region}",
+    return {"outcome": tag + ":" + oc, "key": f"{spec['tag']}|{G.cfg_key(cfg)}|{sc is not None}|{case.get('f')}|{case.get('lf')}|{case.get('ls')}|{case.get('sf')}|{region}",
             "violations": vs, "stats": {"fired": len(fired), "failed_trials": sum(1 for t in tr if t.failed)}}
 
 
